@@ -140,6 +140,9 @@ func redactFindEmailEnd(src string, atIndex int) int {
 		return len(src)
 	case dotIndex == len(src)-1:
 		// truncated domain, e.g.: foo.bar@google.
+		if redactEmailCheckNumber(src[atIndex+1 : dotIndex]) {
+			return -1
+		}
 		return len(src)
 	case !validWordChars[src[dotIndex+1]]:
 		// not email, e.g.: Trx@123456./
